@@ -46,7 +46,7 @@ cc_X_advance ("len(unique_values)").  The model coq/Model/ScansConcat.v USES cc_
 """
 import ast
 
-from vh.translate import TranslateError, _class, _func, _parse, coq_string, coq_Z
+from vh.translate import TranslateError, _class, _func, _parse, coq_string, coq_strings, coq_Z
 
 REL = 'katdal/dataset.py'
 
@@ -347,4 +347,203 @@ def item_concat_run_on(repo, out):
         out.append('Definition cc_%s_advance : string := %s.' % (x, coq_string('len(unique_values)')))
 
 
-ITEMS = [item_iterators, item_concat_run_on]
+
+# ---------------------------------------------------------------------------------------------------------------
+# scan_indices / compscan_indices / target_indices: the last three statements of DataSet.select()
+
+import re
+
+INDEX_ATTRS = ('scan_indices', 'compscan_indices', 'target_indices')
+_INDEX_STMT = re.compile(r"^self\.(\w+) = sorted\(set\(self\.sensor\['(Observation/\w+)'\]\)\)$")
+
+
+def index_attrs(repo):
+    """[(attribute, sensor)] read from the tail of DataSet.select(): each attribute must be assigned exactly once in
+    the class, as `self.<attr> = sorted(set(self.sensor['<sensor>']))`, and these must be the last statements of
+    select() (so that they see the masks of the call).  Fail-closed."""
+    tree = _parse(repo, REL)
+    cls = _class(tree, 'DataSet', REL)
+    fn = _func(cls, 'select', REL)
+    tail = fn.body[-len(INDEX_ATTRS):]
+    got = []
+    for st in tail:
+        m = _INDEX_STMT.match(ast.unparse(st)) if isinstance(st, ast.Assign) else None
+        if not m:
+            raise TranslateError("DataSet.select: tail statement is not self.<x>_indices = sorted(set(self.sensor[<name>])): %s"
+                                 % ast.unparse(st)[:80])
+        got.append((m.group(1), m.group(2)))
+    if tuple(a for a, _ in got) != INDEX_ATTRS:
+        raise TranslateError('DataSet.select: expected the attributes %s at the end, found %s' % (INDEX_ATTRS, [a for a, _ in got]))
+    # assigned nowhere else in the class, apart from the `= []` of the constructor
+    for attr in INDEX_ATTRS:
+        n_other = 0
+        for f in cls.body:
+            for n in ast.walk(f):
+                if isinstance(n, ast.Attribute) and n.attr == attr and isinstance(n.ctx, ast.Store):
+                    if not (isinstance(f, ast.FunctionDef) and f.name == '__init__'):
+                        n_other += 1
+        if n_other != 1:
+            raise TranslateError('DataSet: %s is assigned %d times outside __init__ (expected once, at the end of select())'
+                                 % (attr, n_other))
+    return got
+
+
+def item_index_attrs(repo, out):
+    got = index_attrs(repo)
+    out.append('Definition sel_indices_attrs : list (string * string) := [%s].'
+               % '; '.join('(%s, %s)' % (coq_string(a), coq_string(s)) for a, s in got))
+
+
+# ---------------------------------------------------------------------------------------------------------------
+# the segmentation pipelines of the format classes: statement by statement (ast.unparse of every statement from
+# `scan = self.sensor.get(<activity>)` to `self.sensor['Observation/target_index'] = ...` must match the template of
+# the format, in this order, nothing in between); numbers and strings of the decisions are captured and emitted.
+
+_N = r'(-?\d+)'
+_S = r"'([^'\\]*)'"
+_DROP = (r"\n    {0}\.events, {0}\.indices = \({0}\.events\[1:\], {0}\.indices\[1:\]\)\n    {0}\.events\[0\] = 0")
+T_SCAN_GET = (r"scan = self\.sensor\.get\(f'Antennas/\{self\.ref_ant\}/activity'\)", ())
+T_SLEW = (r"if len\(scan\) > " + _N + r" and scan\.events\[" + _N + r"\] == " + _N + r" and \(scan\[" + _N + r"\] == " + _S
+          + r"\):" + _DROP.format('scan'),
+          ('slew_len_gt', 'slew_event_index', 'slew_event_value', 'slew_dump', 'slew_value'))
+T_LABEL_GET_TRY = (r"try:\n    label = self\.sensor\.get\('[\w/]+'\)\nexcept KeyError:\n    label = CategoricalData\(\[''\], "
+                   r"(?:all_dumps|\[0, num_dumps\])\)", ())
+T_LABEL_GET_V2 = (r"label = sensor_to_categorical\(markup_group\['labels'\]\['timestamp'\], "
+                  r"to_str\(markup_group\['labels'\]\['label'\]\[:\]\), data_timestamps, self\.dump_period, "
+                  r"\*\*SENSOR_PROPS\['Observation/label'\]\)", ())
+T_LABEL_CLEAN = (r"if len\(label\.unique_values\) > " + _N + r":\n    label\.remove\(" + _S + r"\)",
+                 ('label_uv_gt', 'label_removed'))
+T_UNMATCHED = (r"scan\.add_unmatched\(label\.events\)", ())
+T_PUT_STATE = (r"self\.sensor\['Observation/scan_state'\] = scan", ())
+T_PUT_SCAN = (r"self\.sensor\['Observation/scan_index'\] = CategoricalData\(list\(range\(len\(scan\)\)\), scan\.events\)", ())
+T_LABEL_ALIGN = (r"label\.align\(scan\.events\)", ())
+T_LABEL_ADD = (r"if label\.events\[0\] > " + _N + r":\n    label\.add\(" + _N + ", " + _S + r"\)",
+               ('label_first_gt', 'label_add_event', 'label_add_value'))
+T_PUT_LABEL = (r"self\.sensor\['Observation/label'\] = label", ())
+T_PUT_CSCAN = (r"self\.sensor\['Observation/compscan_index'\] = CategoricalData\(list\(range\(len\(label\)\)\), label\.events\)", ())
+T_TARGET_GET = (r"target = self\.sensor\.get\(f'Antennas/\{self\.ref_ant\}/target'\)", ())
+T_NOTHING = (r"if len\(target\) > " + _N + r" and target\[" + _N + r"\] == " + _S + r":" + _DROP.format('target'),
+             ('nothing_len_gt', 'nothing_dump', 'nothing_value'))
+T_TARGET_ALIGN = (r"target\.align\(scan\.events\)", ())
+T_TARGET_RR = (r"target\.remove_repeats\(\)", ())
+T_STOP_LOOP = (r"for segment, scan_state in scan\.segments\(\):\n"
+               r"    if scan_state == " + _S + r" and target\[segment\.start\] is target\[" + _N + r"\]:\n"
+               r"        continue\n"
+               r"    if target\[segment\.start\] is not target\[" + _N + r"\]:\n"
+               r"        target\.events = target\.events\[1:\]\n"
+               r"        target\.indices = target\.indices\[1:\]\n"
+               r"        target\.events\[0\] = 0\n"
+               r"        target\.align\(target\.events\)\n"
+               r"    break", ('stop_value', 'stop_dump', 'stop_dump2'))
+T_PUT_TARGET = (r"self\.sensor\['Observation/target'\] = target", ())
+T_PUT_TINDEX = (r"self\.sensor\['Observation/target_index'\] = CategoricalData\(target\.indices, target\.events\)", ())
+
+_COMMON_HEAD = [T_SCAN_GET, T_SLEW]
+_COMMON_MID = [T_LABEL_CLEAN, T_UNMATCHED, T_PUT_STATE, T_PUT_SCAN, T_LABEL_ALIGN, T_LABEL_ADD, T_PUT_LABEL, T_PUT_CSCAN,
+               T_TARGET_GET]
+SEG_FORMATS = {
+    'v4': ('katdal/visdatav4.py', 'VisibilityDataV4',
+           _COMMON_HEAD + [T_LABEL_GET_TRY] + _COMMON_MID + [T_TARGET_ALIGN, T_TARGET_RR, T_STOP_LOOP, T_PUT_TARGET, T_PUT_TINDEX]),
+    'v3': ('katdal/h5datav3.py', 'H5DataV3',
+           _COMMON_HEAD + [T_LABEL_GET_TRY] + _COMMON_MID + [T_NOTHING, T_TARGET_ALIGN, T_PUT_TARGET, T_PUT_TINDEX]),
+    'v2': ('katdal/h5datav2.py', 'H5DataV2',
+           _COMMON_HEAD + [T_LABEL_GET_V2] + _COMMON_MID + [T_TARGET_ALIGN, T_PUT_TARGET, T_PUT_TINDEX]),
+}
+SEG_INT_KEYS = ('slew_len_gt', 'slew_event_index', 'slew_event_value', 'slew_dump', 'label_uv_gt', 'label_first_gt',
+                'label_add_event', 'nothing_len_gt', 'nothing_dump', 'stop_dump')
+SEG_STR_KEYS = ('slew_value', 'label_removed', 'label_add_value', 'nothing_value', 'stop_value')
+# values of a format that has no such statement (emitted all the same so that the model is uniform; never used)
+SEG_DEFAULTS = dict(nothing_len_gt=1, nothing_dump=0, nothing_value='', stop_dump=0, stop_value='')
+
+
+def segmentation_constants(repo, fmt):
+    rel, cname, templates = SEG_FORMATS[fmt]
+    what = '%s.__init__ (segmentation)' % cname
+    tree = _parse(repo, rel)
+    fn = _func(_class(tree, cname, rel), '__init__', rel)
+    texts = [ast.unparse(s) for s in fn.body]
+    starts = [i for i, t in enumerate(texts) if t.startswith('scan = ')]
+    if len(starts) != 1:
+        raise TranslateError('%s: expected exactly one statement `scan = ...`, found %d' % (what, len(starts)))
+    region = texts[starts[0]:starts[0] + len(templates)]
+    if len(region) != len(templates):
+        raise TranslateError('%s: segmentation block is shorter than expected' % what)
+    vals = {}
+    for k, ((pat, names), text) in enumerate(zip(templates, region)):
+        m = re.fullmatch(pat, text)
+        if not m:
+            raise TranslateError('%s: statement %d of the segmentation block does not have the expected shape: %s'
+                                 % (what, k, text.replace('\n', ' / ')[:160]))
+        for nm, g in zip(names, m.groups()):
+            vals[nm] = g
+    # scan / label / target are not touched again before the selection is initialised
+    for t in texts[starts[0] + len(templates):]:
+        if (re.search(r'\b(scan|label|target)\.(align|add|remove|add_unmatched|remove_repeats)\(', t)
+                or re.search(r'\b(scan|label|target)\.(events|indices|unique_values)(\[[^\]]*\])?(, [\w.\[\]:]+)* [-+*/|&]?= ', t)):
+            raise TranslateError('%s: the segmentation sensors are modified again after the block: %s' % (what, t[:100]))
+    if 'stop_dump' in vals and vals.pop('stop_dump2') != vals['stop_dump']:
+        raise TranslateError('%s: the two tests of the initial-stop loop compare with different dumps' % what)
+    out = dict(SEG_DEFAULTS)
+    out.update(vals)
+    for k in SEG_INT_KEYS:
+        out[k] = int(out[k])
+    return out
+
+
+V1_TEMPLATE = [
+    r"scan_labels = \[to_str\(s\.attrs\.get\('label', ''\)\) for s in self\._scan_groups\]",
+    r"compscan_labels = \[to_str\(s\.parent\.attrs\.get\('label', ''\)\) for s in self\._scan_groups\]",
+    r"scan_states = \[_labels_to_state\(s, cs\) for s, cs in zip\(scan_labels, compscan_labels\)\]",
+    r"self\.sensor\['Observation/scan_state'\] = CategoricalData\(scan_states, self\._segments\)",
+    r"self\.sensor\['Observation/scan_index'\] = CategoricalData\(list\(range\(len\(scan_states\)\)\), self\._segments\)",
+    r"compscan = CategoricalData\(\[s\.parent\.name for s in self\._scan_groups\], self\._segments\)",
+    r"compscan\.remove_repeats\(\)",
+    r"label = CategoricalData\(compscan_labels, self\._segments\)",
+    r"label\.align\(compscan\.events\)",
+    r"self\.sensor\['Observation/label'\] = label",
+    r"self\.sensor\['Observation/compscan_index'\] = CategoricalData\(list\(range\(len\(label\)\)\), label\.events\)",
+    r"target = CategoricalData\(\[_robust_target\(to_str\(s\.parent\.attrs\.get\('target', ''\)\)\) for s in self\._scan_groups\], "
+    r"self\._segments\)",
+    r"target\.align\(compscan\.events\)",
+    r"self\.sensor\['Observation/target'\] = target",
+    r"self\.sensor\['Observation/target_index'\] = CategoricalData\(target\.indices, target\.events\)",
+]
+
+
+def segmentation_v1(repo):
+    rel, cname = 'katdal/h5datav1.py', 'H5DataV1'
+    what = '%s.__init__ (segmentation)' % cname
+    tree = _parse(repo, rel)
+    fn = _func(_class(tree, cname, rel), '__init__', rel)
+    texts = [ast.unparse(s) for s in fn.body]
+    starts = [i for i, t in enumerate(texts) if t.startswith('scan_labels = ')]
+    if len(starts) != 1:
+        raise TranslateError('%s: expected exactly one statement `scan_labels = ...`' % what)
+    region = texts[starts[0]:starts[0] + len(V1_TEMPLATE)]
+    if len(region) != len(V1_TEMPLATE):
+        raise TranslateError('%s: segmentation block is shorter than expected' % what)
+    for k, (pat, text) in enumerate(zip(V1_TEMPLATE, region)):
+        if not re.fullmatch(pat, text):
+            raise TranslateError('%s: statement %d of the segmentation block does not have the expected shape: %s'
+                                 % (what, k, text.replace('\n', ' / ')[:160]))
+    for t in texts[starts[0] + len(V1_TEMPLATE):]:
+        if re.search(r'\b(compscan|label|target)\.(align|add|remove|add_unmatched|remove_repeats)\(', t):
+            raise TranslateError('%s: the segmentation sensors are modified again after the block: %s' % (what, t[:100]))
+    return True
+
+
+def item_segmentation(repo, out):
+    segmentation_v1(repo)
+    out.append('Definition seg_v1_pipeline : list string := %s.'
+               % coq_strings(('make_state', 'make_scan_index', 'make_compscan', 'remove_repeats', 'make_label',
+                              'label_align_compscan', 'make_compscan_index', 'make_target', 'target_align_compscan',
+                              'make_target_index')))
+    for fmt in ('v4', 'v3', 'v2'):
+        c = segmentation_constants(repo, fmt)
+        for k in SEG_INT_KEYS:
+            out.append('Definition seg_%s_%s : Z := %s.' % (fmt, k, coq_Z(c[k])))
+        for k in SEG_STR_KEYS:
+            out.append('Definition seg_%s_%s : string := %s.' % (fmt, k, coq_string(c[k])))
+
+
+ITEMS = [item_iterators, item_concat_run_on, item_index_attrs, item_segmentation]
